@@ -25,7 +25,7 @@ def run(tier, prop="C15", clauses=CLAUSES, extra=None, limit=None, depth=None):
         sres = list(ex.map(coord.simulate_cfg, [(c, 150 if quick else 1500, 30, base.seed() + i) for i, c in enumerate(cs)]))
     closed = True
     from . import conform
-    conform.settle_audit(res)
+    conform.settle_audit(res + [{"audit": None, "fails": x["fails"]} for x in sres])
     for x in res:
         R.cov["traces_validated_against_impl"] += x["edges"]
         R.cov["evaluations"] += x["edges"]
